@@ -1784,18 +1784,28 @@ impl VmGreenThread {
             Instr::Modulo(dest, reg1, reg2) => {
                 let b = self.load_offset_or_top(reg2).get_int(self);
                 let a = self.load_offset_or_top(reg1).get_int(self);
-                let Some(c) = a.checked_rem_euclid(b) else {
+                if b == 0 {
                     self.error = Some(self.make_error(VmErrorKind::DivisionByZero).into());
                     return false;
+                }
+                // checked_rem_euclid is also None for i64::MIN % -1, whose remainder is 0
+                let c = match a.checked_rem_euclid(b) {
+                    Some(c) => c,
+                    None => 0,
                 };
                 self.store_offset_or_top(dest, c);
             }
             Instr::ModuloImm(dest, reg1, imm) => {
                 let a = self.load_offset_or_top(reg1).get_int(self);
                 let b = self.shared.int_constants[imm as usize];
-                let Some(c) = a.checked_rem_euclid(b) else {
+                if b == 0 {
                     self.error = Some(self.make_error(VmErrorKind::DivisionByZero).into());
                     return false;
+                }
+                // checked_rem_euclid is also None for i64::MIN % -1, whose remainder is 0
+                let c = match a.checked_rem_euclid(b) {
+                    Some(c) => c,
+                    None => 0,
                 };
                 self.store_offset_or_top(dest, c);
             }
